@@ -12,7 +12,7 @@ use crate::proto::{Ctx, attrs};
 pub fn meta() -> Meta {
     Meta {
         level: "model_checking",
-        rule: "every history of depth d (quick 4, thorough 5) over 13 actions (5 kind-specific operations incl. different operators on the same operand registers, clone, drops, gc, add_vars, reverse/rotate reordering) for bdd, bcdd, zbdd, mtbdd, tdd (and MTBDD alphabets whose results are bare terminals, on terminal tables of 4..6 entries so that terminal ids are recycled within a history; thorough: also F64 terminals; bdd/zbdd (thorough: bcdd) also with an edge-level operation computed inside the closure of Manager::reorder before the levels are moved) is executed in lock-step on five managers that differ only in the apply cache: capacities 1, 2, 16, 4096 and a capacity-16 manager warmed up by 50 unrelated operations; after every step every register of every manager must denote the model's table and have the model's minimal node count (hence all managers agree), and every operation is re-issued once with the same operands and must return the same handle. Capacity 1 puts all entries in one bucket, so a key comparison that ignores the operator or an operand is hit by the second operation. states = distinct model states, transitions = checked steps, executions = histories (each on 5 managers).",
+        rule: "`mtswap`: MTBDD (I64, 3 variables, apply cache 1/2/16/4096): every operator of {add,sub,mul,div,min,max} on every ordered pair of an 81-table set (quick: 27 x 81), then on the exchanged pair, then on the first pair again, back to back; every answer = pointwise model. Further: every history of depth d (quick 4, thorough 5) over 13 actions (5 kind-specific operations incl. different operators on the same operand registers, clone, drops, gc, add_vars, reverse/rotate reordering) for bdd, bcdd, zbdd, mtbdd, tdd (and MTBDD alphabets whose results are bare terminals, on terminal tables of 4..6 entries so that terminal ids are recycled within a history; thorough: also F64 terminals; bdd/zbdd (thorough: bcdd) also with an edge-level operation computed inside the closure of Manager::reorder before the levels are moved) is executed in lock-step on five managers that differ only in the apply cache: capacities 1, 2, 16, 4096 and a capacity-16 manager warmed up by 50 unrelated operations; after every step every register of every manager must denote the model's table and have the model's minimal node count (hence all managers agree), and every operation is re-issued once with the same operands and must return the same handle. Capacity 1 puts all entries in one bucket, so a key comparison that ignores the operator or an operand is hit by the second operation. states = distinct model states, transitions = checked steps, executions = histories (each on 5 managers).",
         assumptions: vec![
             "operator pairs on identical operands beyond the 5-operation alphabet per kind (quantifiers with the same cube, subset0/subset1/change, alternating substitutions) are enumerated in C04/C09/C10/C11's interleaved groups".into(),
         ],
@@ -63,11 +63,19 @@ pub fn shards(tier: &str) -> Vec<String> {
             v.push(format!("numop:{k}:{cap}"));
         }
     }
+    // MTBDD: every operator on every ordered operand pair and then on the exchanged pair (a key that forgets
+    // the operand order of a non-commutative operator serves the first answer for the second request)
+    for cap in [1, 2, 16, 4096] {
+        v.push(format!("mtswap:{cap}"));
+    }
     v
 }
 
 pub fn run(ctx: &mut Ctx) {
     let shard = ctx.shard.clone();
+    if let Some(cap) = shard.strip_prefix("mtswap:") {
+        return mtswap(ctx, cap.parse().unwrap());
+    }
     if shard.starts_with("loom:") {
         return super::loomx::run_substid(ctx);
     }
@@ -93,6 +101,55 @@ pub fn run(ctx: &mut Ctx) {
     }
     let depth = if ctx.thorough() { 5 } else { 4 };
     hist::run_shard(ctx, Prop::C06, depth);
+}
+
+/// MTBDD over I64, 3 variables, apply cache of `cap` entries: for every ordered pair (f, g) of an 81-table
+/// set (quick: every pair with one of 27 tables as f) and every operator: op(f, g), op(g, f), op(f, g) again,
+/// issued back to back on a manager that keeps only the operands alive; each answer must be the pointwise
+/// lifting of the model operator, whatever was memoised by the request before.
+fn mtswap(ctx: &mut Ctx, cap: usize) {
+    use crate::mtbdd::{self as mt, MOPS, MtI64, MtKind, Num};
+    let alpha = [1i64, 2, 4];
+    let mut tabs: Vec<Vec<Num>> = vec![];
+    for i in 0..81usize {
+        let base: Vec<i64> = (0..4).map(|d| alpha[(i / 3usize.pow(d)) % 3]).collect();
+        tabs.push((0..8usize).map(|a| Num::Int(base[a & 3] * (1 + (a >> 2) as i64))).collect());
+    }
+    let step = if ctx.thorough() { 1 } else { 3 };
+    ctx.group(&format!("mtbdd operand pairs in both orders, cache {cap}"), |ctx| {
+        let mref = mt::fresh::<MtI64>(3, &[0, 1, 2], 1 << 16, 1 << 10, cap, 1);
+        let fs: Vec<_> = tabs.iter().map(|t| MtI64::build(&mref, t).expect("harness: operand")).collect();
+        for i in (0..tabs.len()).step_by(step) {
+            for j in 0..tabs.len() {
+                for op in MOPS {
+                    for (k, (a, b)) in [(i, j), (j, i), (i, j)].into_iter().enumerate() {
+                        ctx.count("evaluations", 1);
+                        ctx.count("transitions", 1);
+                        let exp = op.lift(&tabs[a], &tabs[b]);
+                        let got = op.apply(&fs[a], &fs[b]).map_err(|_| "OutOfMemory".to_string()).and_then(|r| MtI64::table(&r));
+                        if k > 0 && a != b && !mt::is_const(&tabs[a]) && !mt::is_const(&tabs[b]) {
+                            ctx.count("nontrivial", 1);
+                        }
+                        if got.as_ref() != Ok(&exp) {
+                            ctx.viol(
+                                attrs(&[("kind", "mtbdd"), ("op", op.name()), ("class", "swapped_operands"), ("step", &k.to_string())]),
+                                json!({"kind": "mtbdd", "apply_cache": cap, "op": op.name(), "f": mt::show_tab(&tabs[i]), "g": mt::show_tab(&tabs[j]),
+                                       "sequence": "op(f,g); op(g,f); op(f,g)", "failing_step": k}),
+                                &format!("mtbdd cache {cap}: {}(f, g), {}(g, f), {}(f, g) with f = {:?}, g = {:?}: step {k} returned {:?}, expected {:?}",
+                                    op.name(), op.name(), op.name(), mt::show_tab(&tabs[i]), mt::show_tab(&tabs[j]), got.map(|t| mt::show_tab(&t)), mt::show_tab(&exp)),
+                            );
+                        }
+                    }
+                }
+            }
+            // results are dead: collect them (this also empties the apply cache between blocks)
+            MtI64::gc(&mref);
+        }
+        let refs: Vec<_> = fs.iter().collect();
+        for e in MtI64::audit(&mref, &refs, true).errors.iter().take(2) {
+            ctx.viol(attrs(&[("kind", "mtbdd"), ("class", "audit")]), json!({"kind": "mtbdd", "apply_cache": cap}), &format!("mtswap audit: {e}"));
+        }
+    });
 }
 
 /// All sequences of length d over {substitute(f_i, s_j) for 2 functions x 3 persistent
